@@ -32,7 +32,7 @@ ASSUMPTIONS = ["the probe intercepts every file-system call of the code under te
                "a fault is an OSError raised in place of the system call; the call's side effect does not happen"]
 EXHAUSTIVE = {"quick": True, "thorough": True}
 SYMPTOMS = {"success-although-fault-free-call-fails", "success-reported-without-whole-effect", "raised-but-pid-bound",
-            "retry-refused", "retry-not-retrievable", "earlier-binding-replaced", "earlier-binding-lost-and-retry-refused", "earlier-binding-to-another-object-lost",
+            "retry-refused", "retry-not-retrievable", "earlier-binding-replaced", "earlier-binding-lost-and-retry-refused", "earlier-binding-to-another-object-lost", "earlier-binding-lost",
             "previous-metadata-version-lost",
             "bystander-changed"}
 C08_SYMPTOMS = {"leaked-lock", "follow-up-blocked", "deadlock"}
